@@ -84,6 +84,7 @@ func runC05(p *Prog, r *Report) {
 	c5Cache(p, r)
 	c5Discovery(p, r, auth)
 	c5RequestPassThrough(p, r, auth)
+	c5SnapshotPersistence(p, r)
 	r.Floor("R5.8-request-pass-through", 7)
 	// R5.5 sibling authorizer: the batch package has its own copy of the decision loop; the decision-table rules of C02
 	// (R2.1 no early exit, R2.2 classification, R2.3 decision, R2.6 fresh accumulators) are applied to that copy here,
@@ -1235,3 +1236,164 @@ func c5RequestPassThrough(p *Prog, r *Report, auth *ssa.Function) {
 		}
 	}
 }
+
+// R5.9 — what a snapshot refers to stays as it was. doBatch saves the whole state by a shallow copy (`prev := *be`) and
+// puts it back when a level is done; that restores the *references* held in the state, not the containers behind them.
+// So a map that was reachable from the state when a snapshot was taken must never be written again: every map write
+// (m[k] = v, delete, clear) in the package must go to a map that this very function made (a map literal, make,
+// maps.Clone) — directly, or through a state member that the function replaced by such a fresh map before the write.
+// Recycling a map across levels ("fill the spare one and swap") breaks the restore as soon as a third level reuses the
+// map a saved level still points to.
+func c5SnapshotPersistence(p *Prog, r *Report) {
+	const rule = "R5.9-snapshot-persistence"
+	stateT := p.namedType(pBatch, "batchEvaler")
+	if stateT == nil {
+		r.Anchor(rule, "batch.batchEvaler")
+		return
+	}
+	isStatePtr := func(v ssa.Value) bool {
+		pt, ok := v.Type().Underlying().(*types.Pointer)
+		return ok && types.Identical(pt.Elem(), stateT)
+	}
+	freshMap := func(v ssa.Value) bool {
+		switch x := v.(type) {
+		case *ssa.MakeMap:
+			return true
+		case *ssa.Call:
+			// maps.Clone, or a map handed out by another package (the state is private to this one; value types hand out copies)
+			if f := x.Call.StaticCallee(); f != nil && (stdName(f) == "maps.Clone" || fnPkgPath(f) != pBatch) {
+				return true
+			}
+		}
+		return false
+	}
+	var fns []*ssa.Function
+	// only what runs while snapshots exist: doBatch and everything it reaches inside the package (with their closures);
+	// Authorize builds the initial state before the first snapshot is taken
+	root := p.fn(pBatch, "doBatch")
+	if root == nil {
+		r.Anchor(rule, "batch.doBatch")
+		return
+	}
+	for fn := range reachFrom(p, []*ssa.Function{root}) {
+		if fnPkgPath(fn) == pBatch && len(fn.Blocks) > 0 {
+			for _, f := range withAnon(fn) {
+				fns = append(fns, f)
+			}
+		}
+	}
+	sort.Slice(fns, func(i, j int) bool { return fns[i].String() < fns[j].String() })
+	n := 0
+	done := map[*ssa.Function]bool{}
+	for _, fn := range fns {
+		if done[fn] {
+			continue
+		}
+		done[fn] = true
+		forEachInstr(fn, func(in ssa.Instruction) {
+			var m ssa.Value
+			what := ""
+			switch x := in.(type) {
+			case *ssa.MapUpdate:
+				m, what = x.Map, "m[k] = v"
+			case *ssa.Call:
+				if isBuiltin(&x.Call, "delete") || isBuiltin(&x.Call, "clear") {
+					if _, isMap := x.Call.Args[0].Type().Underlying().(*types.Map); isMap {
+						m, what = x.Call.Args[0], x.Call.Value.Name()
+					}
+				}
+			}
+			if m == nil {
+				return
+			}
+			n++
+			construct := fnQual(fn) + ":" + what
+			var ok func(v ssa.Value, depth int) (bool, string)
+			ok = func(v ssa.Value, depth int) (bool, string) {
+				if depth > 4 {
+					return false, "the map's origin is too indirect to follow"
+				}
+				if freshMap(v) {
+					return true, "a map made by this function"
+				}
+				switch y := v.(type) {
+				case *ssa.Phi:
+					for _, e := range y.Edges {
+						if g, why := ok(e, depth+1); !g {
+							return false, why
+						}
+					}
+					return true, "maps made by this function"
+				case *ssa.UnOp:
+					if y.Op != token.MUL {
+						break
+					}
+					if fa, isFA := y.X.(*ssa.FieldAddr); isFA && isStatePtr(fa.X) {
+						// the member was replaced by a fresh map earlier in this function, on every path to the write
+						for _, ref := range *fa.X.Referrers() {
+							fa2, isFA2 := ref.(*ssa.FieldAddr)
+							if !isFA2 || fa2.Field != fa.Field {
+								continue
+							}
+							for _, u := range *fa2.Referrers() {
+								st, isSt := u.(*ssa.Store)
+								if isSt && st.Addr == ssa.Value(fa2) && freshMap(st.Val) && (st.Block() != in.Block() && st.Block().Dominates(in.Block()) || st.Block() == in.Block() && instrIndex(st) < instrIndex(in)) {
+									return true, "the state member was replaced by a fresh map before the write"
+								}
+							}
+						}
+						return false, "the map is taken from the state (member " + stateT.Underlying().(*types.Struct).Field(fa.Field).Name() + ") without having been replaced by a fresh one in this function"
+					}
+					cell := y.X
+					if fv, isFV := cell.(*ssa.FreeVar); isFV {
+						// a captured local of the enclosing function: follow the binding
+						if par := fv.Parent().Parent(); par != nil {
+							idx := -1
+							for i, q := range fv.Parent().FreeVars {
+								if q == fv {
+									idx = i
+								}
+							}
+							forEachInstr(par, func(pi ssa.Instruction) {
+								if mc, isMC := pi.(*ssa.MakeClosure); isMC && mc.Fn == ssa.Value(fv.Parent()) && idx >= 0 && idx < len(mc.Bindings) {
+									cell = mc.Bindings[idx]
+								}
+							})
+						}
+					}
+					if al, isAl := cell.(*ssa.Alloc); isAl {
+						good := false
+						refs := append([]ssa.Instruction{}, *al.Referrers()...)
+						if fv, isFV := y.X.(*ssa.FreeVar); isFV {
+							refs = append(refs, *fv.Referrers()...) // stores made through the captured cell in the closure itself
+						}
+						for _, u := range refs {
+							if st, isSt := u.(*ssa.Store); isSt && (st.Addr == ssa.Value(al) || st.Addr == y.X) {
+								if g, why := ok(st.Val, depth+1); !g {
+									return false, why
+								}
+								good = true
+							}
+						}
+						if good {
+							return true, "a local holding maps made by this function"
+						}
+					}
+				case *ssa.Parameter, *ssa.FreeVar:
+					return false, "the map comes in from outside the function"
+				}
+				return false, "the map is not one this function made"
+			}
+			g, why := ok(m, 0)
+			if g {
+				r.OK(rule, construct, p.pos(in.Pos()), why)
+			} else {
+				r.Viol(rule, construct, p.pos(in.Pos()), fnShort(fn)+" writes ("+what+") to a map that a saved snapshot of the enumeration state may still refer to — "+why+": doBatch restores a level by copying the saved struct back, which brings back the reference but not the contents, so an outer level continues with the residual policies (or values) of an inner one")
+			}
+		})
+	}
+	if n == 0 {
+		r.Anchor(rule, "map writes in x/exp/batch")
+	}
+}
+
